@@ -587,6 +587,7 @@ def evConn : Ev → ConnId
   | .invalid c => c
   | .close c => c
   | .timeout => 0
+  | .expire _ => 0
   | .stall c _ => c
 
 /-- one step changes the view in one of four ways -/
@@ -616,6 +617,13 @@ theorem view_step (tbl : List IfaceRow) (b : Bus) (ev : Ev) :
         (b.pending.foldl (fun t p => sendError t p.caller (fakeCall p.serial) .noReply) ({ bus := { b with pending := [] } } : Tx)) :=
       step_fold KCore.refl KCore.trans _ (fun t p => step_sendError t _ _ _) _ _
     exact ViewStep.of_core _ (KCore.trans _ _ _ (show KCore b { b with pending := [] } from rfl) h.bus)
+  | expire due =>
+    left
+    simp only [step, expireWhere]
+    have h := step_fold (K := KCore) (fw := noFw) KCore.refl KCore.trans
+      (fun (t : Tx) (p : Pending) => sendError t p.caller (fakeCall p.serial) .noReply) (fun t p => step_sendError t _ _ _)
+      (b.pending.filter (due.contains ·)) ({ bus := { b with pending := b.pending.filter fun p => !due.contains p } } : Tx)
+    exact ViewStep.of_core _ (KCore.trans _ _ _ (show KCore b { b with pending := b.pending.filter fun p => !due.contains p } from rfl) h.bus)
   | stall c on => exact Or.inl (.same rfl rfl rfl)
 
 theorem namesInv_step (tbl : List IfaceRow) (b : Bus) (ev : Ev) (hi : NamesInv b) : NamesInv (step tbl b ev).1 := by
